@@ -77,6 +77,10 @@ type opT struct {
 	Conc      int    `json:"conc,omitempty"`
 	Apply     bool   `json:"apply,omitempty"`
 	CheckRepo bool   `json:"check_repo,omitempty"`
+	// FaultNth (get, list): the Nth existence probe (Has) on the label store fails once during the operation. The
+	// operation may then fail - but a live label must not be reported as not found, and a listing that reports
+	// success must be complete
+	FaultNth int `json:"fault_nth,omitempty"`
 }
 
 type caseT struct {
@@ -300,6 +304,9 @@ func drawCase(t *rapid.T) caseT {
 			o.Kind = "get"
 			pickLive()
 			o.CheckRepo = rapid.Bool().Draw(t, "check_repo")
+			if rapid.IntRange(0, 4).Draw(t, "get_fault") == 0 {
+				o.FaultNth = 1
+			}
 		default:
 			o.Kind = "list"
 			// mostly list a repo that presumably has labels, with a prefix taken from one of them
@@ -318,6 +325,9 @@ func drawCase(t *rapid.T) caseT {
 			o.Batch = rapid.SampledFrom([]int{0, 1, 1, 2, 3}).Draw(t, "batch")
 			o.Conc = rapid.SampledFrom([]int{0, 1, 2, 7}).Draw(t, "conc")
 			o.Apply = rapid.Bool().Draw(t, "apply")
+			if rapid.IntRange(0, 4).Draw(t, "list_fault") == 0 {
+				o.FaultNth = rapid.IntRange(1, 4).Draw(t, "list_fault_nth")
+			}
 		}
 		c.Ops = append(c.Ops, o)
 	}
@@ -498,6 +508,7 @@ type lkey struct {
 
 type runT struct {
 	env     *hx.Env
+	view    *hx.Views
 	stores  context2.Stores
 	h       handles
 	bundles [][]string
@@ -786,9 +797,52 @@ func (r *runT) step(o opT) error {
 		return r.checkAll(o.Repo)
 	case "get":
 		r.names[o.Name] = true
+		if o.FaultNth > 0 && o.Repo < len(repoNames) {
+			mf := &memstore.Fault{Op: memstore.OpHas, KeySub: "labels/", Nth: o.FaultNth, Times: 1}
+			r.view.VMeta.AddFault(mf)
+			d, err := r.h.getLabel(repoName(o.Repo), o.Name, o.CheckRepo)
+			r.view.VMeta.ClearFaults()
+			if mf.Hits > 0 {
+				stats.Count("get_during_a_failed_existence_probe", 1)
+				if w, live := r.live[lkey{o.Repo, o.Name}]; live {
+					if err != nil && errors.Is(err, status.ErrNotFound) {
+						return fmt.Errorf("label %+q of repo %s is set (-> %s) but a get during which one existence probe failed reports it as not found: %v", o.Name, repoName(o.Repo), w, err)
+					}
+					if err == nil && d.BundleID != w {
+						return fmt.Errorf("label %+q of repo %s resolves to %s, last set to %s", o.Name, repoName(o.Repo), d.BundleID, w)
+					}
+				} else if err == nil {
+					return fmt.Errorf("label %+q of repo %s resolves to %s but it is not set", o.Name, repoName(o.Repo), d.BundleID)
+				}
+				return nil
+			}
+		}
 		return r.checkGet(o.Repo, o.Name, o.CheckRepo)
 	case "list":
-		return r.checkList(o.Repo, listOpt{Prefix: o.Prefix, Batch: o.Batch, Conc: o.Conc, Apply: o.Apply})
+		lo := listOpt{Prefix: o.Prefix, Batch: o.Batch, Conc: o.Conc, Apply: o.Apply}
+		if o.FaultNth > 0 && o.Repo < len(repoNames) {
+			mf := &memstore.Fault{Op: memstore.OpHas, KeySub: "labels/", Nth: o.FaultNth, Times: 1}
+			r.view.VMeta.AddFault(mf)
+			_, lerr := listLabels(r.stores, repoName(o.Repo), lo)
+			hit := mf.Hits > 0
+			var cerr error
+			if lerr == nil {
+				// it reported success: run the comparison on a listing made under the same fault plan
+				r.view.VMeta.ClearFaults()
+				mf2 := &memstore.Fault{Op: memstore.OpHas, KeySub: "labels/", Nth: o.FaultNth, Times: 1}
+				r.view.VMeta.AddFault(mf2)
+				cerr = r.checkList(o.Repo, lo)
+				if cerr != nil && mf2.Hits > 0 && strings.Contains(cerr.Error(), ") failed: ") {
+					cerr = nil // this time the disturbed listing reported the failure: fine
+				}
+			}
+			r.view.VMeta.ClearFaults()
+			if hit {
+				stats.Count("list_during_a_failed_existence_probe", 1)
+			}
+			return cerr
+		}
+		return r.checkList(o.Repo, lo)
 	}
 	return fmt.Errorf("harness: unknown op %q", o.Kind)
 }
@@ -798,8 +852,9 @@ func runCase(c caseT) (*runT, error) {
 	if err != nil {
 		return nil, err
 	}
-	stores := env.Actor("p").Stores
-	r := &runT{env: env, stores: stores, h: handles{stores: stores, reuse: c.Reuse}, bundles: bundles, live: map[lkey]string{}, names: map[string]bool{},
+	view := env.Actor("p")
+	stores := view.Stores
+	r := &runT{env: env, view: view, stores: stores, h: handles{stores: stores, reuse: c.Reuse}, bundles: bundles, live: map[lkey]string{}, names: map[string]bool{},
 		deleted: map[lkey]bool{}, classes: map[string]bool{}}
 	meta0 := snapshot(env.Meta)
 	if err := r.checkAll(-1); err != nil {
